@@ -90,12 +90,14 @@ def _texture(rng, shape, kind, maxval):
         if rng.random() < 0.6:
             levels[0] = 0
         w = nrng.random(L) + 0.1
+        if rng.random() < 0.7:
+            w = np.sort(w)[::-1] ** 2          # bright levels rarer: isolated and clustered maxima
         return nrng.choice(np.array(levels, dtype=np.int64), size=shape, p=w / w.sum())
     if kind == "plateau":
-        a = np.full(shape, rng.choice([0, 0, rng.randint(0, maxval // 2)]), dtype=np.int64)
+        a = np.full(shape, rng.choice([0, 1, 1, rng.randint(0, maxval // 2)]), dtype=np.int64)
         for _ in range(rng.randint(1, 5)):
             lo = [rng.randrange(n) for n in shape]
-            hi = [min(n, l + rng.randint(1, max(1, n // 2))) for l, n in zip(lo, shape)]
+            hi = [min(n, l + rng.randint(1, max(1, n // 3))) for l, n in zip(lo, shape)]
             a[tuple(slice(l, h) for l, h in zip(lo, hi))] = rng.choice(
                 [maxval, rng.randint(1, maxval), rng.randint(1, maxval)])
         if rng.random() < 0.4:
@@ -130,7 +132,7 @@ def _texture(rng, shape, kind, maxval):
 
 def _spikes(rng, shape, margin, maxval):
     """isolated spikes on / next to the margin boundary"""
-    a = np.full(shape, rng.choice([0, 1, rng.randint(0, maxval // 2)]), dtype=np.int64)
+    a = np.full(shape, rng.choice([0, 1, 1, 1, rng.randint(0, maxval // 2)]), dtype=np.int64)
     for _ in range(rng.randint(1, 8)):
         p = []
         for n, m in zip(shape, margin):
@@ -166,14 +168,17 @@ def gen_image_case(rng, thorough=False):
     elif mk == "zero":
         margin, meff = 0, [0] * nd
     elif mk == "scalar":
-        margin = rng.randint(0, 4)
+        margin = rng.choice([0, 1, 1, 2, 2, 3, 4])
         meff = [margin] * nd
     else:
-        margin = [rng.randint(0, 4) for _ in range(nd)]
+        margin = [rng.choice([0, 1, 1, 2, 2, 3, 4]) for _ in range(nd)]
         meff = list(margin)
-    pct = rng.choice(["0", "30", "64", "64", "90", "100", "%d/8" % rng.randint(0, 800)])
-    kind = rng.choice(["palette", "palette", "palette", "plateau", "plateau", "checker", "spikes",
-                       "blobs", "black", "single"])
+    pct = rng.choice(["0", "30", "64", "64", "64", "90", "%d/8" % rng.randint(0, 800),
+                      "%d/8" % rng.randint(0, 800)])
+    if rng.random() < 0.04:
+        pct = "100"
+    kind = rng.choice(["palette"] * 8 + ["plateau"] * 6 + ["checker"] * 4 + ["spikes"] * 4 +
+                      ["blobs"] * 4 + ["black", "single"])
     maxval = 65535 if dtype == "uint16" else 255
     if dtype == "uint16" and rng.random() < 0.5:
         maxval = rng.choice([300, 1023, 4095])
@@ -295,9 +300,10 @@ def pair_matrix(pts, seps):
     return Q, L
 
 
-def oracle_maxima(img, seps, thr, margin):
+def oracle_maxima(img, seps, thr, margin, mirrored=False):
     """the statement, pixel by pixel: brighter than thr, not exceeded inside the clipped box,
-    outside the margin"""
+    outside the margin.  `mirrored` places an even-sized box the other way round (one pixel more
+    towards LOWER indices): also inscribed, but not what the code does."""
     nd = img.ndim
     ks = [box_size(s, nd) for s in seps]
     out = []
@@ -310,7 +316,9 @@ def oracle_maxima(img, seps, thr, margin):
         above += 1
         if any(p[i] < margin[i] or p[i] > img.shape[i] - margin[i] - 1 for i in range(nd)):
             continue
-        sl = tuple(slice(max(0, p[i] - (ks[i] - 1) // 2), min(img.shape[i], p[i] + ks[i] // 2 + 1))
+        lo_hi = [((ks[i] - 1) // 2, ks[i] // 2) if not mirrored else (ks[i] // 2, (ks[i] - 1) // 2)
+                 for i in range(nd)]
+        sl = tuple(slice(max(0, p[i] - lo_hi[i][0]), min(img.shape[i], p[i] + lo_hi[i][1] + 1))
                    for i in range(nd))
         if img[sl].max() <= img[p]:
             out.append(tuple(int(x) for x in p))
@@ -482,6 +490,13 @@ def check_image(ctx, res, image, seps, sep_arg, pctF, margin_arg, precise, sig_b
         exp, above = oracle_maxima(conv, seps, othr, meff)
     mod0 = parse_pts(m0)
     facts = dict(n_expected=len(exp), above=above, black=black, dropped=0)
+    if r0 != exp and not black and r0 == oracle_maxima(conv, seps, othr, meff, mirrored=True)[0]:
+        res.violation("correspondence-break", "grey_dilation(precise=False) places even-sized boxes "
+                      "one pixel towards lower indices (still inscribed in the ellipse, so the "
+                      "statement is met) but the model mirrors scipy's grey_dilation placement",
+                      impl=r0[:40], model=mod0[:40], broken="Find.axisWin / maxima_iff (box placement)",
+                      signature=dict(sig_base, clause="maxima_iff", what="even-box-placement"))
+        return facts
     if r0 != exp:
         missing = sorted(set(exp) - set(r0))
         extra = sorted(set(r0) - set(exp))
